@@ -13,7 +13,7 @@ SPEC = dict(
                "not the one a lexical clean-up names, with and without a decoy database at the lexical location): the real database must come back. "
                "The returned database belongs to the caller: after seven kinds of changes to an earlier fallback result (replace through the caching wrapper, edit, "
                "append, empty, truncate) the next load that falls back must again be the pristine built-in database. Loadable files carry every common mode "
-               "(0666, 0777, 0606 ... 0400); and a file is replaced between two loads of one process by content of the same length with its modification time kept.",
+               "(0666, 0777, 0606 ... 0400); and a file is replaced between two loads of one process by content of the same length with its modification time kept. Retry configurations include factors below one, zero and negative ones.",
     level_note="Attempts and waits are observed by the verif hook (before time.Sleep), never inferred from wall-clock time. BackoffFactor < 1 is not a back-off and is excluded.",
     engines=[dict(name="loadfaults", shards=T(16, 16), timeout=T(900, 3600))],
     rule="case = (main fault, notebook fault, backup fault, retry configuration, transient-repair point); every case is non-trivial (each creates real files and drives the real loader); "
